@@ -250,7 +250,16 @@ func vpKMChain(node *Node, id crypto.Hash, pledging *CNode) *Chain {
 		info := *pledging
 		return &Chain{node: node, ChainId: pledging.IdForNetwork, ConsensusInfo: &info}
 	}
-	return &Chain{node: node, ChainId: id, State: &ChainState{}}
+	c := &Chain{node: node, ChainId: id, State: &ChainState{}}
+	// like chain.loadIdentity: a chain whose node is (or was last) accepted or
+	// pledging carries that node's record as its identity
+	for _, cn := range node.NodesListWithoutState(^uint64(0)>>1, false) {
+		if cn.IdForNetwork == id {
+			info := *cn
+			c.ConsensusInfo = &info
+		}
+	}
+	return c
 }
 
 // ---------------------------------------------------------------------------
